@@ -101,6 +101,19 @@ Theorem C20_safe_backend_denies : forall m d, In (m, d) trait_methods ->
   | DRequired => False end.
 Proof. exact safe_backend_denies. Qed.
 
+(** No default method of the trait touches the host, from the trait as it stands in the source
+    (regenerated table): apart from the clock and the time zone, the scan of every default body finds no
+    file-system probe, std::fs/env/process/net/io/thread/time use, standard stream or print macro, and
+    every constant-answer default has exactly its listed text (file_exists answers `false`, var `None`,
+    ...).  So a backend without overrides, and SafeSys, answer without looking at the host. *)
+Theorem C20_defaults_host_free :
+  forallb (fun mt => match snd mt with [] => true | _ => smem (fst mt) host_reading_defaults end) default_host_tokens = true /\
+  forallb (fun nb => smem (fst nb) host_reading_defaults && negb (smem (fst nb) (map fst benign_bodies)) ||
+                     match assoc (fst nb) benign_bodies with Some b => String.eqb b (snd nb) | None => false end)
+          default_other_bodies = true /\
+  forallb (fun m => match snd m with DRequired => true | _ => is_some (assoc (fst m) default_host_tokens) end) trait_methods = true.
+Proof. exact (conj defaults_host_free (conj defaults_bodies_listed defaults_cover_trait)). Qed.
+
 (** The tables of the code as it stands: no system function is labelled Pure, the modifier kinds are
     classified as in the code, every row of effects_of respects its label (no exceptions). *)
 Theorem C20_tables_consistent :
@@ -207,6 +220,7 @@ Print Assumptions C20_purity_monotone.
 Print Assumptions C20_purity_subtree.
 Print Assumptions C20_safe_backend_denies.
 Print Assumptions C20_tables_consistent.
+Print Assumptions C20_defaults_host_free.
 Print Assumptions C20_labels_refuted_pre.
 Print Assumptions C20_labels_repaired.
 Print Assumptions C20_compile_restores_state.
